@@ -141,12 +141,10 @@ func verifSeam_arpScanRange(o *arpCmdOpts, dst *net.IPNet) (*scan.Range, error) 
 	return &r, nil
 }
 
-func verifSeam_arpLogger(o *arpCmdOpts) (log.Logger, error) {
-	var l log.Logger = wireLogger
-	if o.liveTimeout > 0 {
-		l = log.NewUniqueLogger(l)
-	}
-	return l, nil
+// the arp command's own getLogger runs; only the construction of the base logger (stdout, zap) is replaced
+func verifSeam_arpBaseLogger(o *packetScanCmdOpts, name string, w io.Writer) (log.Logger, error) {
+	verifAssert(name == "arp", "logger label is not the scan name")
+	return wireLogger, nil
 }
 
 func wireReset() {
@@ -285,7 +283,9 @@ func VerifH_C03_wireARP() {
 	c := newARPCmd()
 	live := ndBool("live")
 	if live {
-		c.opts.liveTimeout = time.Second
+		lt := int64(ndU64("liveInterval")) // any positive interval, also below one second
+		verifAssume(lt > 0)
+		c.opts.liveTimeout = time.Duration(lt)
 	}
 	err := c.cmd.RunE(c.cmd, []string{"192.168.0.0/24"})
 	verifAssert(err == nil, "command failed before the engine start")
